@@ -515,6 +515,12 @@ type simReplica struct {
 	started bool
 	up      bool
 	removed bool // applied its own removal: node stopped for good
+	// lingering: applied its own removal under raftMu while a step worker had already
+	// passed the node.stopped() test (engine.processSteps): one more step, with the
+	// messages already queued, runs before the node is gone
+	lingering     bool
+	lingered      bool
+	termAtRemoval uint64
 	cfg     config.Config
 	disk    *simDisk
 	reader  *simReader
@@ -573,6 +579,7 @@ type simOpts struct {
 }
 
 type sim struct {
+	lingerRemoved bool
 	fail    func(sig string, format string, args ...interface{})
 	opts    simOpts
 	reps    map[uint64]*simReplica
@@ -922,6 +929,12 @@ func (s *sim) step(r *simReplica, crashPoint int) {
 	}
 	s.beginStep(r)
 	defer func() { r.inStep = false }()
+	if r.lingering {
+		// the last step of a replica that applied its own removal
+		defer func() {
+			r.lingering, r.lingered, r.removed = false, true, true
+		}()
+	}
 	moreToApply := len(r.applyQ) < 4
 	p := &r.peer
 	var ud pb.Update
@@ -1166,10 +1179,10 @@ func (s *sim) deliverStatus(k int) {
 
 // apply processes up to n tasks of the replica's apply queue.
 func (s *sim) apply(r *simReplica, n int) {
-	if !r.running() {
+	if !r.running() || r.lingering {
 		return
 	}
-	for i := 0; i < n && len(r.applyQ) > 0 && r.running(); i++ {
+	for i := 0; i < n && len(r.applyQ) > 0 && r.running() && !r.lingering; i++ {
 		t := r.applyQ[0]
 		r.applyQ = r.applyQ[1:]
 		if t.recover {
@@ -1177,7 +1190,7 @@ func (s *sim) apply(r *simReplica, n int) {
 		} else {
 			for _, e := range t.ents {
 				s.applyEntry(r, e)
-				if !r.running() {
+				if !r.running() || r.lingering {
 					break
 				}
 			}
@@ -1282,7 +1295,13 @@ func (s *sim) applyEntry(r *simReplica, e pb.Entry) {
 				if r.raft().state == leader {
 					s.fail("removed-leader-still-leader", "replica %d applied its own removal and is still leader", r.id)
 				}
-				r.removed = true
+				r.termAtRemoval = r.raft().term
+				if s.lingerRemoved {
+					r.lingering = true
+					s.flag("self-removed-lingering")
+				} else {
+					r.removed = true
+				}
 				s.flag("self-removed")
 			}
 			if cc.Type == pb.AddNode && cc.ReplicaID == r.id && r.kind == kNonVoting {
